@@ -251,6 +251,28 @@ def chain(B, G, kind, n, h, a=None, kmax=3):
         o1 = st.sample(1, initial_state=v1, overwrite=ow)
         G.fact("sample(1-D,overwrite=%s).shape" % ow, tuple(B.scalars(o1).shape) == (n,) and tuple(B.scalars(v1).shape) == (n,), "returned %s, caller's %s" % (tuple(B.scalars(o1).shape), tuple(B.scalars(v1).shape)))
         G.fact("sample(1-D,overwrite=%s).values" % ow, [float(x) for x in B.scalars(o1).reshape(-1)] == [float(x) for x in rows[-1]], "last visible outcome")
+    # start state with extra leading dimensions [replica, chain, site]: every unit is still drawn from its exact conditional
+    init3 = C.rows_tensor(B, [rows[-1], rows[0]]).unsqueeze(1).clone()
+    hb, vb = rand_bits(rbm.num_hidden), rand_bits(n)
+    ab = rand_bits(a) if kind == "mixed" else None
+    sc.calls.clear()
+    sc.queue = [[[x] for x in hb]] + ([[[x] for x in ab]] if kind == "mixed" else []) + [[[x] for x in vb]]
+    o3 = rbm.gibbs_steps(1, init3)
+    G.fact("3-D start.shape", tuple(B.scalars(o3).shape) == (nb, 1, n), B.scalars(o3).shape)
+    if len(sc.calls) == per:
+        ph_ref = B.scalars(rbm.prob_h_given_v(C.rows_tensor(B, [rows[-1], rows[0]])))
+        got = np.asarray(sc.calls[0], dtype=object).reshape(nb, -1)
+        for i, j in np.ndindex(nb, rbm.num_hidden):
+            G.eq("3-D start.p_h[%d,%d]" % (i, j), got[i, j], ph_ref[i, j])
+        if kind == "mixed":
+            pv_ref = B.scalars(rbm.prob_v_given_ha(C.rows_tensor(B, hb), C.rows_tensor(B, ab)))
+        else:
+            pv_ref = B.scalars(rbm.prob_v_given_h(C.rows_tensor(B, hb)))
+        got = np.asarray(sc.calls[-1], dtype=object).reshape(nb, -1)
+        for i, j in np.ndindex(nb, n):
+            G.eq("3-D start.p_v[%d,%d]" % (i, j), got[i, j], pv_ref[i, j])
+    else:
+        G.fact("3-D start.draws", False, "%d Bernoulli draws for one step" % len(sc.calls))
     # overwrite=True on a non-contiguous start state (a column-sliced view): the caller's storage is updated in place
     if n >= 1:
         wide = C.rows_tensor(B, [list(r) + list(r) for r in (rows[-1], rows[0])])
